@@ -16,6 +16,22 @@ def work(item, opts):
             if k in item:
                 case[k] = item[k]
     delay = item.get("delay") if isinstance(item, dict) else None
+    if isinstance(item, dict) and item.get("prior"):
+        # the same optimizer instance is first used on a sibling task (same variables; other objectives, weights, seed)
+        import json, random
+        rng = random.Random(f"prior/{case.get('i')}")
+        priors = []
+        for _ in range(int(item["prior"])):
+            sp = json.loads(json.dumps(case["spec"]))
+            sp["seed"] = rng.randint(0, 2 ** 32 - 1)
+            if sp.get("weights") is not None:
+                sp["weights"] = [rng.choice([0.1, 0.7, 2.0, 5.0]) for _ in sp["weights"]]
+            for o in sp["obj"]:
+                o.setdefault("p", {})["offset"] = rng.choice([0.0, -7.5, 3.0])
+            if rng.random() < 0.3:
+                sp["minmax"] = "max" if sp["minmax"] == "min" else "min"
+            priors.append(sp)
+        case["prior"] = priors
     utils = bool(opts.get("utils"))
     obs = run.run_case(case, cpu_budget=opts.get("cpu_budget", 120.0), delay=delay,
                        workdir=os.environ.get("PVMON_WORKDIR"), keep_result=utils,
